@@ -15,6 +15,23 @@ ALLOWED_PRIMITIVES = {'prop1', 'prop2', 'prop3', 'modus_ponens', 'dynamic_inst',
 OTHER_RULES = {'exists_quantifier', 'exists_generalization', 'publish_proof'}
 
 
+def lemma_schemas(ctx, py):
+    """the lemma-schema obligations alone (also composed into C09: the prover's stages are typed against these schemas)"""
+    sc = S.SchemaChecker(py, LEMMA_CLASSES)
+    for name, lem in sc.lemmas.items():
+        fn = lem.fn
+        if not (fn.returns is not None and ast.unparse(fn.returns) == 'ProofThunk'):
+            continue
+        where = py.where(lem.owner.module, fn)
+        try:
+            sc.check(name, lem.owner.name)
+            ctx.ob('lemma-schema', name, True, '', where)
+        except S.Violation as v:
+            ctx.ob('lemma-schema', name, False, str(v), where)
+        except S.Decline:
+            pass
+
+
 def run(ctx):
     py = PyRepo.get()
     sc = S.SchemaChecker(py, LEMMA_CLASSES)
@@ -66,6 +83,7 @@ def run(ctx):
     fold_direction(ctx, py)
     # to_conj_form advertises, for its two proofs, `input -> form` and `form -> input`: checked as the inductive step of its recursion
     conj_form_contract(ctx, py)
+    nth_conjunct_contract(ctx, py)
     # a reference lemma that left the analysed subset fails the run closed - unless a violation already explains it
     if broken and not any(not o['ok'] for o in ctx.obligations):
         ctx.require(False, broken[0])
@@ -83,6 +101,94 @@ def run(ctx):
                         '(modus_ponens, dynamic_inst as simultaneous instantiation, prop1-3 = spec/axioms.py)',
                         'replayed conclusion equals static conclusion (ProofThunk assertion, decided under C08)', 'python ast']
     ctx.assumptions = ['instantiation is simultaneous (C11)', 'notation expansion as read from pattern.py']
+
+
+def nth_conjunct_contract(ctx, py):
+    """conjunction_implies_nth(term, n, l) advertises `p0 /\\ (p1 /\\ (... /\\ p(l-1))) -> pn` for the conjunction of l conjuncts: the
+    recursion must be driven by the COUNT l (a single conjunct may itself be a conjunction), and each step must be the inductive
+    step: l = 1: the term implies itself; n = 0: the head; otherwise the projection of the tail composed with the tail's n-1."""
+    from ..core import schema as S
+    from ..core.pyeval import PyEval, show
+    fn = py.method('Tautology', 'conjunction_implies_nth')
+    where = py.where('tautology', fn)
+    sc = S.SchemaChecker(py, LEMMA_CLASSES)
+    N = sc.N
+    names = [a.arg for a in fn.args.args[1:]]
+    ctx.require(len(names) == 3, 'conjunction_implies_nth: signature changed')
+    TERM, NN, LL = (('param', x) for x in names)
+    SELF = ('param', 'self')
+
+    def atom(x):
+        return ('P', 'Symbol', ('str', '$' + x))
+
+    H, T, P = atom('head'), atom('tail'), atom('pn')
+    k = 0
+    for p in PyEval().paths(fn):
+        if p.end[0] != 'return':
+            continue
+        k += 1
+        conds = {c: b for c, b in p.conds}
+        single = None
+        for c, b in p.conds:
+            if c[0] == 'cmp' and c[1] == '==' and {c[2], c[3]} == {LL, ('const', 1)}:
+                single = b
+            if c[0] == 'cmp' and c[1] in ('>', '!=') and c[2] == LL and c[3] == ('const', 1):
+                single = not b
+        first = None
+        for c, b in p.conds:
+            if c[0] == 'cmp' and c[1] == '==' and {c[2], c[3]} == {NN, ('const', 0)}:
+                first = b
+        rv = p.end[1]
+        tag = f'conjunction_implies_nth/path{k}'
+        destructures = any(v[0] == 'call' and v[1] in (('attr', ('name', '_and'), 'assert_matches'), ('attr', ('name', '_and'), 'matches'))
+                           for v in _walk_values(rv)) or any('_and' in repr(c) and 'matches' in repr(c) for c in conds)
+        if single is None:
+            ctx.ob('stage-contract', tag, False,
+                   f'a path returns {show(rv)[:80]} without having decided whether the term is the LAST conjunct by the count `{names[2]}`: '
+                   f'driving the recursion by the shape of the term takes a conjunct that is itself a conjunction apart', where)
+            continue
+        ov = {}
+        try:
+            if single:
+                ty = S.Typer(sc, {names[0]: ('pat', P)}, 'conjunction_implies_nth', 'Tautology')
+                got = ty.pf(rv)
+                ctx.ob('stage-contract', tag, got == ('P', 'Implies', P, P) and not destructures,
+                       f'with one conjunct left the result must be `term -> term`; it is {S.tshow(got)}', where)
+                continue
+            term_t = N.apply('_and', [H, T])
+            rec = [v for v in _walk_values(rv) if v[0] == 'call' and v[1] == ('attr', SELF, 'conjunction_implies_nth')]
+            for r in rec:
+                ov[r] = ('pf', ('P', 'Implies', T, P))
+            ty = S.Typer(sc, {names[0]: ('pat', term_t)}, 'conjunction_implies_nth', 'Tautology')
+            ty.overrides = ov
+            got = ty.pf(rv)
+            if first:
+                ok = got == ('P', 'Implies', term_t, H) and not rec
+                why = f'for n = 0 the result must project the head: {S.tshow(("P", "Implies", term_t, H))}; it is {S.tshow(got)}'
+            else:
+                tail_val = None
+                args_ok = len(rec) == 1 and len(rec[0][2]) == 3 and rec[0][2][1] == ('binop', 'Sub', NN, ('const', 1)) \
+                    and rec[0][2][2] == ('binop', 'Sub', LL, ('const', 1))
+                if rec:
+                    tail_t = ty.pat(rec[0][2][0])
+                    args_ok = args_ok and tail_t == T
+                ok = got == ('P', 'Implies', term_t, P) and args_ok
+                why = (f'for n > 0 the result must be `term -> pn` from the recursive call on (tail, n - 1, l - 1); it is {S.tshow(got)}'
+                       + ('' if args_ok else f' and the recursive call is {show(rec[0])[:90] if rec else "missing"}'))
+            ctx.ob('stage-contract', tag, ok, why, where)
+        except S.Violation as v:
+            ctx.ob('stage-contract', tag, False, f'does not type-check: {v}', where)
+        except S.Decline as d:
+            ctx.decline(tag, str(d))
+    ctx.floor('stage-contract', 14)
+
+
+def _walk_values(v):
+    if isinstance(v, tuple) and v:
+        yield v
+        for x in v:
+            if isinstance(x, tuple):
+                yield from _walk_values(x)
 
 
 def build_subst_contract(ctx, py):
